@@ -516,7 +516,7 @@ class ExprMixin:
                 return True, dict.__getitem__(d, k)
             return False, None
         for kk in list(d.keys()):
-            if self.decide_eq(kk, k):
+            if kk is k or self.decide_eq(kk, k):
                 return True, dict.__getitem__(d, kk)
         return False, None
 
@@ -636,7 +636,7 @@ class ExprMixin:
         if isinstance(a, (tuple, list)) and isinstance(b, (tuple, list)) and type(a) is type(b):
             if len(a) != len(b):
                 return False
-            ts = [self.eq_term(x, y) for x, y in zip(a, b)]
+            ts = [True if x is y else self.eq_term(x, y) for x, y in zip(a, b)]  # containers compare `is` first
             if all(isinstance(t, bool) for t in ts):
                 return all(ts)
             return z3.And(*[z3.BoolVal(t) if isinstance(t, bool) else t for t in ts])
@@ -765,7 +765,7 @@ class ExprMixin:
             if _simple(x) and all(_simple(k) for k in container):
                 return x in container
             self.models._hashcheck(self, x)
-            ts = [self.eq_term(k, x) for k in container]
+            ts = [True if k is x else self.eq_term(k, x) for k in container]
             return self._or(ts)
         if isinstance(container, (list, tuple, set, frozenset)):
             if _simple(x) and all(_simple(k) for k in container):
